@@ -925,7 +925,9 @@ class TestClientRecorder(BaseOperationRecorder):
                             http_response.headers[hdr_name]
             tc_http_response['headers'] = tc_response_headers
             if http_response.payload is not None:
-                data = http_response.payload.decode('utf-8')
+                # The response may not be valid UTF-8; that is reported by
+                # the operation, and must not make the recorder fail.
+                data = http_response.payload.decode('utf-8', 'replace')
                 data = data.replace('><', '>\n<').strip()
             else:
                 data = None
@@ -985,7 +987,9 @@ class TestClientRecorder(BaseOperationRecorder):
         if isinstance(obj, bytes):
             return obj.decode("utf-8")
         if isinstance(obj, str):
-            return obj
+            # This includes Char16; str() because YAML cannot represent
+            # subclasses of str.
+            return str(obj)
         if isinstance(obj, bool):
             # The check for bool must be before any integer checks, because
             # bool is a subclass of int in Python.
